@@ -1,6 +1,8 @@
 package main
 
 import (
+	"bytes"
+	"crypto/sha256"
 	"flag"
 	"fmt"
 	"os"
@@ -29,6 +31,7 @@ type runOpts struct {
 	verbose  bool
 	noFilter bool
 	outDir   string
+	only     string
 }
 
 func main() {
@@ -51,6 +54,7 @@ func main() {
 	fs.BoolVar(&o.panics, "panics", false, "generate panic-freedom obligations")
 	fs.BoolVar(&o.verbose, "v", false, "verbose")
 	fs.StringVar(&o.outDir, "out", "", "directory for evidence/ and replays/ (default: the verification directory)")
+	fs.StringVar(&o.only, "only", "", "check: discharge only the obligations of these functions (comma separated; used by the must-fail corpus, which knows which bodies a change touched)")
 	fs.BoolVar(&o.noFilter, "no-filter", false, "do not restrict the prelude to the axioms relevant to each query")
 	fs.Parse(os.Args[2:])
 	if o.verifDir == "" {
@@ -83,6 +87,8 @@ func main() {
 		os.Exit(cmdFn(o))
 	case "list":
 		os.Exit(cmdList(o))
+	case "hashes":
+		os.Exit(cmdHashes(o))
 	case "replay":
 		os.Exit(cmdReplay(o, fs.Args()))
 	case "ssa":
@@ -235,12 +241,13 @@ func dischargeAll(e *Engine, units []*Unit, o runOpts, pool *SolverPool) []*Obli
 		}(ob)
 	}
 	wg.Wait()
-	// rescue round: an obligation that was not discharged only because a solver ran out of wall-clock time (a loaded
+	// rescue round: an obligation that was not discharged only because a solver ran out of wall-clock time (status
+	// timeout; `unknown` from every solver means they gave up, and more time does not help) (a loaded
 	// machine, many checks in parallel) gets one more attempt with a third of the parallelism and three times the
 	// budget, per incoming path where there are several. Sound: the same queries, more time.
 	var again []*Obligation
 	for _, ob := range all {
-		if !ob.Vacuity && ob.Status != "unsat" && ob.Status != "" && !ob.Trivial {
+		if !ob.Vacuity && ob.Status == "timeout" && !ob.Trivial {
 			again = append(again, ob)
 		}
 	}
@@ -444,4 +451,56 @@ func vacuityReport(all []*Obligation) []string {
 		}
 	}
 	return out
+}
+
+// cmdHashes prints, per function of the package, a hash of its SSA text together with the SSA text of every
+// function it would inline (in-package callees without a contract, closures). Two trees that agree on a function's
+// hash generate the same obligations for it (the contracts file being equal).
+func cmdHashes(o runOpts) int {
+	e, err := load(o)
+	if err != nil {
+		fmt.Fprintln(os.Stderr, "load:", err)
+		return 2
+	}
+	var text func(fn *ssa.Function, seen map[*ssa.Function]bool, sb *strings.Builder)
+	text = func(fn *ssa.Function, seen map[*ssa.Function]bool, sb *strings.Builder) {
+		if seen[fn] {
+			return
+		}
+		seen[fn] = true
+		var b bytes.Buffer
+		fn.WriteTo(&b)
+		for _, ln := range strings.Split(b.String(), "\n") {
+			if strings.HasPrefix(ln, "# Location:") || strings.HasPrefix(strings.TrimSpace(ln), ";") {
+				continue // source positions (debug references) move when lines are inserted above
+			}
+			sb.WriteString(ln + "\n")
+		}
+		for _, a := range fn.AnonFuncs {
+			text(a, seen, sb)
+		}
+		for _, blk := range fn.Blocks {
+			for _, ins := range blk.Instrs {
+				c, ok := ins.(ssa.CallInstruction)
+				if !ok {
+					continue
+				}
+				cal := c.Common().StaticCallee()
+				if cal == nil || cal.Pkg != e.pkg {
+					continue
+				}
+				if e.specs.Contracts[fnName(cal)] != nil {
+					continue
+				}
+				text(cal, seen, sb)
+			}
+		}
+	}
+	for _, n := range e.sortedFuncNames() {
+		var sb strings.Builder
+		text(e.funcs[n], map[*ssa.Function]bool{}, &sb)
+		h := sha256.Sum256([]byte(sb.String()))
+		fmt.Printf("%x %s\n", h[:8], n)
+	}
+	return 0
 }
